@@ -384,8 +384,8 @@ class _Checker:
                             self._viol("CopyTopologyData:differs", "the copied Topology answers %s, the original %s "
                                        "(type, volume, matrix, shortest height, connection vector)"
                                        % (lines.get("copy"), lines["orig"]), None)
-                        if lines.get("copybeads") != ["2"]:
-                            self._viol("CopyTopologyData:beads", "copied Topology has %s beads, expected 2"
+                        if lines.get("copybeads") != ["5"]:
+                            self._viol("CopyTopologyData:beads", "copied Topology has %s beads, expected 5 (two free beads, two in one molecule, one in another)"
                                        % lines.get("copybeads"), None)
             self._resolve(pending)
         finally:
